@@ -89,6 +89,7 @@ type lcSchedule struct {
 	Peer    string   `json:"peer"`    // real mode: "inproc" | "child"
 	End     string   `json:"end"`     // real mode, child peer still alive at the end: "kill" | "close"
 	Gate    string   `json:"gate"`    // witness schedules: name of a staged interleaving
+	Raw     bool     `json:"raw"`     // witness schedules without expected states: settle after every step
 }
 
 type lcJob struct {
@@ -1032,6 +1033,15 @@ func (w *lcWorld) replayManual() {
 			return
 		}
 		if st.X == nil {
+			if w.sc.Raw {
+				// let the procedure finish (or block on a running callback) before the next step
+				deadline := time.Now().Add(400 * time.Millisecond)
+				for len(w.outstanding()) > 0 && time.Now().Before(deadline) {
+					time.Sleep(time.Millisecond)
+				}
+				time.Sleep(30 * time.Millisecond)
+				w.checkPanics(i)
+			}
 			continue
 		}
 		idx, diff := w.waitFor(st.X, st.Alts)
